@@ -321,12 +321,13 @@ func c04Variants(h *verifJHist, otherIdx []byte, seed uint64) []c04Variant {
 // of the honest index X. When known_findings.json lists that id as open, the difference is
 // reported as KNOWN-FINDING and excluded; otherwise it is a violation like any other.
 // (VERIFJ_ASSUME_OPEN=id,id is a development aid with the same effect.)
-//   C04-index-lookup-range-unchecked: y differs from X only inside offset/length fields of
-//     lookups (no checksum covers them);
-//   C04-index-consistent-forgery-trusted: y differs from X only inside lookup address fields and
-//     batch checksum fields, and every batch checksum of y is right for y's addresses; or only
-//     inside batch end-offset and root-hash fields, every batch end of y naming a real root
-//     record of the journal with that root (an internally consistent forgery).
+//
+//	C04-index-lookup-range-unchecked: y differs from X only inside offset/length fields of
+//	  lookups (no checksum covers them);
+//	C04-index-consistent-forgery-trusted: y differs from X only inside lookup address fields and
+//	  batch checksum fields, and every batch checksum of y is right for y's addresses; or only
+//	  inside batch end-offset and root-hash fields, every batch end of y naming a real root
+//	  record of the journal with that root (an internally consistent forgery).
 func c04FindingFor(h *verifJHist, y []byte) string {
 	X := h.finalIdx
 	if len(X) != len(y) || bytes.Equal(X, y) {
@@ -552,7 +553,7 @@ func c04Pinned(t *testing.T, base string) {
 	lo := recs[batches[0][0]].off // first lookup of the first batch
 	type pv struct {
 		name, finding string
-		idx            []byte
+		idx           []byte
 	}
 	var pvs []pv
 	y := c04Clone(X)
